@@ -246,8 +246,15 @@ def run_case(case):
                         d[k] = model[k] = 10 ** rng.uniform(-3, 3)
                 keys, w = list(model), list(model.values())
             elif how == "sizes-setter":
-                sizes = [rng.choice([1, 2, 3, 4, 5]) for _ in range(T)]
-                L.motif_sizes = list(sizes)
+                if rng.random() < 0.35:
+                    # the value assigned is the very list the loader already holds (obj.motif_sizes = obj.motif_sizes, a settings object
+                    # re-applied): the sizes stay what they were
+                    cur = sut("read motif_sizes", lambda: L.motif_sizes)
+                    L.motif_sizes = cur
+                    res.count("motif_sizes_assigned_the_list_the_loader_already_holds")
+                else:
+                    sizes = [rng.choice([1, 2, 3, 4, 5]) for _ in range(T)]
+                    L.motif_sizes = list(sizes)
             elif how == "inadmissible-sizes":
                 # a configuration call with a value outside the domain (a motif size < 1): a library that REFUSES it must be left as it
                 # was configured before; one that accepts it is re-configured with the admissible sizes through the same setter
